@@ -356,6 +356,7 @@ Load(st, ls) ==
 Step(st, op) ==
   CASE op.k = "add"   -> Add(st, op.l)
     [] op.k = "load"  -> Load(st, op.ls)
+    [] op.k = "query" -> {Ok(st)}            \* read-only: the document is unchanged (C10)
     [] op.k = "flush" -> ProcessQueue(st)
     [] op.k = "rm"    -> Rm(st, op.id)
     [] op.k = "disc"  -> Disc(st, op.l)
